@@ -26,8 +26,8 @@ RULE = (
     "registers a default late, and runs at least one request after an exit."
 )
 ASSUMPTIONS = ["re-registering a default for a type that already has one is not generated (the statement does not say which wins)"]
-FLOORS = {"programs": (3000, 60000), "runs_compared": (15000, 300000), "exits_by_exception": (800, 15000),
-          "reentered_active": (400, 8000), "started_without_runtime": (1200, 25000), "late_defaults": (400, 8000)}
+FLOORS = {"programs": (15000, 150000), "runs_compared": (60000, 600000), "exits_by_exception": (3000, 30000),
+          "reentered_active": (600, 6000), "started_without_runtime": (4000, 40000), "late_defaults": (3000, 30000)}
 SHARDS_QUICK = 4
 
 
@@ -279,7 +279,7 @@ def run(ctx):
     if ctx.shard == 0:
         for p in DIRECTED:
             run_one(ctx, p, "directed")
-    n = ctx.n(6000, 120000)
+    n = ctx.n(20000, 200000)
     for i in range(n):
         r = case_rng(ctx, i)
         run_one(ctx, gen_program(r, r.choice([4, 6, 8, 12] if ctx.quick else [4, 8, 12, 20, 30])), "random")
